@@ -209,7 +209,7 @@ def triggers_of(program: dict, facts: dict[str, dict]) -> dict[str, list[str]]:
                     below = _anc(program, a)
                     has_aggwin = any(by_id[b]["op"] == "summarize" or (by_id[b]["op"] == "mutate" and (fn_ops(by_id[b]) & (AGG_OPS | WIN_OPS)))
                                      for b in below if b in by_id)
-                    if has_aggwin and any(r in below for r in refs):
+                    if has_aggwin:
                         hit("D50", sid)
                         break
         if op in ("export", "slice_head"):
